@@ -596,7 +596,7 @@ func ruleHops(r *core.Reporter) {
 			if !res.Reached[ret] {
 				continue
 			}
-			if c, isC := ir.RetVal(ret, 0).(*ssa.Const); !isC || c.Value == nil || c.Value.ExactString() != "false" {
+			if vals, okc := res.BoolReturn(ret); !okc || anyTrue(vals) {
 				bad = true
 			}
 		}
